@@ -25,3 +25,11 @@ open SamVerif.C03
 #print axioms bindings_correct_on_temps
 #print axioms bounds_checked_everywhere
 #print axioms bounds_gate
+#print axioms erased_uses_validate
+#print axioms no_cast_without_erasure
+#print axioms erased_uses_old_counterexample
+#print axioms context_signature_survives_tailrec
+#print axioms context_signature_old_counterexample
+#print axioms sole_reference_kept
+#print axioms effectful_reference_kept
+#print axioms loop_value_reference_kept
